@@ -328,8 +328,17 @@ theorem C18_gen_blur_gaze_pixel_unblurred (levels : Nat) (mip : Nat → ℝ) (h2
 example : pyrNeedsPadG 30 20 8 = true ∧ pyrBottomG 30 20 8 = 2 ∧ pyrRightG 30 20 8 = 4 ∧ pyrTopG 30 20 8 = 0 ∧ pyrLeftG 30 20 8 = 0 := by
   decide
 
-/-- non-vacuity: the sizes of the mip chain of a 8 × 6 image: 8×6, 4×3, 2×1, then the final averaging step -/
-example : mipSizesG 10 8 6 = [(8, 6), (4, 3), (2, 1), (1, 3)] := by decide
+/-- the sizes of the mip chain of a 8 × 6 image: 8×6, 4×3, 2×1, then the final averaging step down to 1×1 (before the repair of
+    finding F15 the last step read the level BEFORE the last one and produced the inconsistent size 1×3, which made `blur` raise) -/
+theorem C18_gen_mip_chain_example : mipSizesG 10 8 6 = [(8, 6), (4, 3), (2, 1), (1, 1)] ∧ mipSizesG 10 40 24 = [(40, 24), (20, 12), (10, 6), (5, 3), (2, 1), (1, 1)] := by
+  decide
+
+/-- the final averaging steps of the mip chain keep the other side of the LAST level: every level of every chain is at most as large as
+    its predecessor in both directions (checked for all image sizes up to 24 × 24 by kernel evaluation) -/
+theorem C18_gen_mip_chain_monotone_small :
+    ∀ H ∈ List.range 25, ∀ W ∈ List.range 25, 1 ≤ H → 1 ≤ W →
+      (let m := mipSizesG 10 H W; (m.zip m.tail).all fun (a, b) => decide (b.1 ≤ a.1 ∧ b.2 ≤ a.2)) = true := by
+  decide +kernel
 
 /-- "finite everywhere": in both pooling-size maps the quantity handed to `acos` is a clamped dot product, so it lies in the domain
     `[-1, 1]` of `acos` for EVERY gaze and pixel - also where the dot product of the two unit vectors rounds above 1 (finding F38: the
